@@ -369,3 +369,16 @@ package repository
 //@   props C14
 //@   stable git.configReads
 //@   ensures [answers-from-the-current-configuration] git.configReads == old(git.configReads) + 1
+
+// Writing a commit (C15: every object written passes git's strict consistency check): the author and committer
+// fields, which come from the user's git configuration, are handed to go-git free of the characters that break the
+// commit header.
+// (cleanIdent drops '<', '>' and line breaks through strings.Map: that its result holds none of them is assumed)
+//@ func cleanIdent
+//@   trusted
+//@   purefn
+//@   ensures object.identClean(result)
+//@ func (*GoGitRepo).StoreSignedCommit
+//@   props C15
+//@   opt gitobjects
+//@   stable all(object.Commit.Author), all(object.Commit.Committer)
